@@ -1406,6 +1406,11 @@ impl SubRule {
         // therefore we must keep track of a change in a syllable's length and update the SegPositions accordingly
         let mut total_len_change: Vec<i8> = vec![0; word.syllables.len()];
         let mut last_pos = SegPos::new(0, 0);
+
+        // an ellipsis captures nothing, so the elements after it could not be paired with their outputs
+        if let Some(el) = self.input.iter().find(|item| item.kind == ParseElement::Ellipsis) {
+            return Err(RuleRuntimeError::SubstitutionEllipsis(el.position))
+        }
         
         let mut res_word = word.clone();
         for (state_index, (in_state, out_state)) in self.input.iter().zip(&self.output).enumerate() {
